@@ -43,10 +43,13 @@ package githistory
 //@   requires e != nil
 //@   modifies fresh
 //@   ensures result != nil && isfresh(result) && result.Filemode == mode && result.Name == e.Name && bytesOf(result.Oid) == bytesOf(e.Oid)
+// The key of the entry cache is a function of the path *and* the object id, for
+// every kind of entry: "<path>:<hex id>".
 //@ func (*Rewriter).entryKey
-//@   assumed
 //@   props C12
+//@   requires @inv e != nil
 //@   modifies fresh
+//@   ensures result == scat(scat(path, ":"), hexenc(bytesOf(e.Oid)))
 
 // A blob the rewrite function leaves alone keeps its id; otherwise the id is
 // that of the blob the function returned, as written to the database.
